@@ -241,6 +241,15 @@ func C19(c *Ctx) {
 			}
 			jobs = append(jobs, job{name + ": " + gast.Short(g), text, fs, len(g.Rules)})
 		}
+		if (name == "lr" || name == "stratum") && len(g.Rules) >= 3 && nadd%2 == 1 {
+			// every rule is an entrypoint (so are all members of every cycle): whatever the generator
+			// derives from the entrypoint list, the output is a function of text and flags
+			var names []string
+			for _, ru := range g.Rules[1:] {
+				names = append(names, ru.Name)
+			}
+			jobs = append(jobs, job{name + "+entrypoints: " + gast.Short(g), text, []string{"-support-left-recursion", "-alternate-entrypoints", strings.Join(names, ",")}, len(g.Rules)})
+		}
 	}
 	for _, g := range c19Strata() {
 		add("stratum", g, 6) // once multi-line ...
